@@ -129,7 +129,9 @@ def readAccountName (r : Rd) : Run ((Bytes × Bool) × Rd) := do
   let (ok1, r) ← readSymbolAndExpect r (strBytes "name")
   let ((nm, ok2), r) ← readPotentialStringOrSymbol r
   let (ok3, r) := expect r chRParen
-  pure ((nm, ok1 && ok2 && ok3), r)
+  -- repaired code: a name with a double quote (possible when written as a symbol) could not be
+  -- written back by the export and is not accepted
+  pure ((nm, ok1 && ok2 && ok3 && !nm.contains 34), r)
 
 /-- readAccountProtocol -/
 def readAccountProtocol (r : Rd) : Run ((Bytes × Bool) × Rd) := do
